@@ -19,6 +19,7 @@ extern "C" {
   /* symbolic inputs, slot k is recorded so a counterexample can be replayed natively */
   long in_long(int k); bool in_bool(int k); unsigned char in_uchar(int k); double in_double(int k); int in_int(int k);
   /* observable streams: a fresh sink; bytes written to it; its first bytes; bytes written to the process's standard output in a window */
+  void vx_set_numtext(void* s, long n); double vx_num_of_text(void* s);
   void* vx_io_new(void); long vx_io_written(void* f); long vx_io_text(void* f, void* buf, long n); void vx_io_begin(void); long vx_io_end(void);
 }
 #define VX_WITNESS() verif_assert(false, "WITNESS reachable")
